@@ -2529,6 +2529,9 @@ impl ContinuityStore {
             });
         }
 
+        // The spawn planned again on the thread as it is now; that plan is what the job frame
+        // records, so the decision, the response and the execution must use it too.
+        let planned = spawned.planned.clone();
         let decision_id = Uuid::new_v4().to_string();
         let planned_frame = planned
             .iter()
